@@ -479,6 +479,15 @@ def deleteTill (cd : Codecs) (cfg : Cfg) : Nat → St → Nat → St × Res
         | (s', .ok) => deleteTill cd cfg fuel s' target
         | (s', r) => (s', r)
 
+/-- `Executer.createSyncContext`: the finalized block header handed to the synchronisers
+(`SyncContext.FinalizedBlockHeader`) is `GetBlockHeaderByHeight(GetFinalizedHeight())` — read from the
+database (and the block cache) at the time of the call, never from memory of the Executer. `none`:
+an error is returned. -/
+def syncFinalized (cd : Codecs) (s : St) : Option Hdr :=
+  match finOf s.db with
+  | none => none
+  | some fin => headerAt cd s fin
+
 /-! ### height selection of the synchronisers (pkg/consensus/sync) -/
 
 /-- loop of `getHeightWithGap`; `i` is the loop counter, `n` the remaining iterations -/
